@@ -424,7 +424,7 @@ func checkC12(c *Ctx) {
 			}
 		}
 	}
-	c.Rule = fmt.Sprintf("every decode path (%d byte prefixes incl. all 65536 (d,op) pairs after DDCB/FDCB) x %d operand byte patterns x %d configurations (memory kind {64K array, DumbMemory len 0/1/256/32768, MapMemory} / IO kind {nil, DumbIO len 0/1/128/256} / IM {0,1,2,-1,3,MaxInt} / PC {0000,0100,FFFC..FFFF} / SP / pending request {none, NMI, unknown types, IM1, IM2, mode-0 data of 1..4 bytes and 70000 bytes} one at a time around a default, thorough: pairs); all 256 single-byte opcodes and multi-byte forms as mode-0 data x IM x IFF1 x PC x memory kind; mode-0 data of 5/8/300 bytes starting with each of the 256 opcodes with every pointer register aimed into and around [PC, PC+len); Run on a halting program with every request kind pending x IM x IFF1; Run vs Step-driven twin on every decode path as a one-instruction program in HALT-filled memory (at 0100, FFC0 and FFFA, with and without a non-empty BreakPoints map). the real DumbMemory (6 lengths) and MapMemory passed to the CPU unwrapped x every decode path x operand patterns x 4 PCs x 7 SPs; memories filled with a single prefix/opcode byte; a port device that also implements the exported (unused) INT/NMI interfaces and holds its lines until ReturnNMI/ReturnINT: the program reaches its HALT; Run called from inside a device callback of a running Run on the same CPU (BIOS-trap style, both programs halt); one CPU value stepped through the whole decode tree twice (every supported and unsupported encoding on the same object); an embedder re-pointing CPU.Memory/CPU.IO from inside the callback at access 0..4 of the Step x all 256 first bytes x 4 tails, from memory and as mode-0 data; Oracle: no panic, deterministic watchdog (4096 accesses per Step), unsupported opcodes only consumed. Non-trivial = the configuration deviates from the default in memory/IO/IM/request or the path is an unsupported or prefix-only encoding (counted).", len(paths), len(operandPats), len(cfgs))
+	c.Rule = fmt.Sprintf("every decode path (%d byte prefixes incl. all 65536 (d,op) pairs after DDCB/FDCB) x %d operand byte patterns x %d configurations (memory kind {64K array, DumbMemory len 0/1/256/32768, MapMemory} / IO kind {nil, DumbIO len 0/1/128/256} / IM {0,1,2,-1,3,MaxInt} / PC {0000,0100,FFFC..FFFF} / SP / pending request {none, NMI, unknown types, IM1, IM2, mode-0 data of 1..4 bytes and 70000 bytes} one at a time around a default, thorough: pairs); all 256 single-byte opcodes and multi-byte forms as mode-0 data x IM x IFF1 x PC x memory kind; mode-0 data of 5/8/300 bytes starting with each of the 256 opcodes with every pointer register aimed into and around [PC, PC+len); Run on a halting program with every request kind pending x IM x IFF1; Run vs Step-driven twin on every decode path as a one-instruction program in HALT-filled memory (at 0100, FFC0 and FFFA, with and without a non-empty BreakPoints map). the real DumbMemory (6 lengths) and MapMemory passed to the CPU unwrapped x every decode path x operand patterns x 4 PCs x 7 SPs; memories filled with a single prefix/opcode byte; thorough: 14 soak loops, one CPU value each, every instruction family (CALL/RET, RST, PUSH/POP, jumps, block elements, port I/O, unsupported op-codes, accepted IM1/NMI/mode-0 requests, HALT wake-up, read-modify-write, 16-bit loads) executed 2^31+2^16 times: no panic, stack balanced, control inside the loop; a port device that also implements the exported (unused) INT/NMI interfaces and holds its lines until ReturnNMI/ReturnINT: the program reaches its HALT; Run called from inside a device callback of a running Run on the same CPU (BIOS-trap style, both programs halt); one CPU value stepped through the whole decode tree twice (every supported and unsupported encoding on the same object); an embedder re-pointing CPU.Memory/CPU.IO from inside the callback at access 0..4 of the Step x all 256 first bytes x 4 tails, from memory and as mode-0 data; Oracle: no panic, deterministic watchdog (4096 accesses per Step), unsupported opcodes only consumed. Non-trivial = the configuration deviates from the default in memory/IO/IM/request or the path is an unsupported or prefix-only encoding (counted).", len(paths), len(operandPats), len(cfgs))
 	c.Bound = "decode tree x configuration lattice " + c.Tier
 	var evals, nontriv [16 * 8]int64
 	var capped int32
@@ -580,7 +580,7 @@ func checkC12(c *Ctx) {
 		n += nl
 		c.Set("long_lived_cpu_steps", nl)
 	}
-	// a port device that also implements the exported (unused) INT/NMI interfaces and holds its lines until ReturnNMI/ReturnINT: the program reaches its HALT; Run called from inside a device callback of a running Run on the SAME CPU (a BIOS-trap style device: an OUT
+	// thorough: 14 soak loops, one CPU value each, every instruction family (CALL/RET, RST, PUSH/POP, jumps, block elements, port I/O, unsupported op-codes, accepted IM1/NMI/mode-0 requests, HALT wake-up, read-modify-write, 16-bit loads) executed 2^31+2^16 times: no panic, stack balanced, control inside the loop; a port device that also implements the exported (unused) INT/NMI interfaces and holds its lines until ReturnNMI/ReturnINT: the program reaches its HALT; Run called from inside a device callback of a running Run on the SAME CPU (a BIOS-trap style device: an OUT
 	// or a store to a trap address makes the host run a service routine on the CPU and then resume). Both
 	// programs halt, so both Runs return. A lock or a flag that makes Run non-reentrant hangs here without a
 	// single memory access, so this is the one place with a wall-clock backstop (60 s for microseconds of work).
@@ -650,6 +650,9 @@ func checkC12(c *Ctx) {
 			}
 			c.Report("c12/line-device", int64(im), "", map[string]interface{}{"im": im}, []string{fmt.Sprintf("IM %d; CPU.IO is a device that also implements z80.INT and z80.NMI and holds its request lines until ReturnNMI/ReturnINT: %s; error %v, HALT=%v, PC=%04X, CheckNMI called %d times, CheckINT %d, ReturnNMI %d, ReturnINT %d", im, what, err, cpu.HALT, cpu.PC, dev.nCheckNMI, dev.nCheckINT, dev.nRetNMI, dev.nRetINT)})
 		}
+	}
+	if !c.Quick() {
+		n += c12Soak(c)
 	}
 	// an embedder that switches banks by re-pointing CPU.Memory (and CPU.IO) from inside a device callback, at
 	// the k-th access of the Step: which object serves the remaining accesses is nobody's promise, but the
@@ -975,3 +978,115 @@ func (d *lineDev) CheckINT() []uint8 {
 
 var _ z80.INT = (*lineDev)(nil)
 var _ z80.NMI = (*lineDev)(nil)
+
+// c12Soak (thorough tier): long life. One CPU value per loop executes a tight loop around one family of
+// instructions until that family has been executed 2^31 + 2^16 times - past the point where a 32-bit signed
+// counter that a tree might keep per CALL, per interrupt, per unsupported op-code, per port access ...
+// overflows. Step must not panic, the stack stays balanced and control stays inside the loop. The loops run
+// in parallel, one core each (about two minutes).
+func c12Soak(c *Ctx) int64 {
+	type loop struct {
+		name  string
+		code  []Poke
+		steps int // Steps per iteration
+		raise int // 0 none; 1 an IM1 request before every iteration; 2 an NMI before every iteration
+		pcs   []uint16
+	}
+	loops := []loop{
+		{"CALL nn / RET", []Poke{{0x0100, []uint8{0xCD, 0x00, 0x02, 0xC3, 0x00, 0x01}}, {0x0200, []uint8{0xC9}}}, 3, 0, nil},
+		{"RST 08h / RET", []Poke{{0x0100, []uint8{0xCF, 0xC3, 0x00, 0x01}}, {0x0008, []uint8{0xC9}}}, 3, 0, nil},
+		{"CALL NZ / RET Z (taken and untaken)", []Poke{{0x0100, []uint8{0xAF, 0xC4, 0x00, 0x02, 0xCC, 0x00, 0x02, 0xC3, 0x00, 0x01}}, {0x0200, []uint8{0xC0, 0xC8}}}, 6, 0, nil},
+		{"PUSH / POP (BC, IX)", []Poke{{0x0100, []uint8{0xC5, 0xD1, 0xDD, 0xE5, 0xFD, 0xE1, 0xC3, 0x00, 0x01}}}, 5, 0, nil},
+		{"JR / DJNZ", []Poke{{0x0100, []uint8{0x18, 0x00, 0x10, 0x00, 0xC3, 0x00, 0x01}}}, 3, 0, nil},
+		{"LDI / CPI / INI / OUTI", []Poke{{0x0100, []uint8{0xED, 0xA0, 0xED, 0xA1, 0xED, 0xA2, 0xED, 0xA3, 0xC3, 0x00, 0x01}}}, 5, 0, nil},
+		{"IN A,(n) / OUT (n),A / IN r,(C) / OUT (C),r", []Poke{{0x0100, []uint8{0xDB, 0x10, 0xD3, 0x11, 0xED, 0x40, 0xED, 0x49, 0xC3, 0x00, 0x01}}}, 5, 0, nil},
+		{"unsupported op-codes ED 00 / DD 00 / DD CB d 00 variants", []Poke{{0x0100, []uint8{0xED, 0x00, 0xED, 0xFF, 0xC3, 0x00, 0x01}}}, 3, 0, nil},
+		{"maskable interrupt accepted (IM 1) / EI / RETI", []Poke{{0x0100, []uint8{0xFB, 0x00, 0xC3, 0x00, 0x01}}, {0x0038, []uint8{0xED, 0x4D}}}, 5, 1, nil},
+		{"NMI accepted / RETN", []Poke{{0x0100, []uint8{0x00, 0xC3, 0x00, 0x01}}, {0x0066, []uint8{0xED, 0x45}}}, 4, 2, nil},
+		{"mode-0 interrupt (RST 38h supplied) / EI / RET", []Poke{{0x0100, []uint8{0xFB, 0x00, 0x00, 0xC3, 0x00, 0x01}}, {0x0038, []uint8{0xC9}}}, 6, 3, nil},
+		{"HALT woken by an NMI", []Poke{{0x0100, []uint8{0x76, 0xC3, 0x00, 0x01}}, {0x0066, []uint8{0x33, 0x33, 0xC3, 0x01, 0x01}}}, 5, 4, nil},
+		{"read-modify-write (HL), (IX+d), BIT/SET/RES", []Poke{{0x0100, []uint8{0x34, 0xDD, 0x35, 0x05, 0xCB, 0xC6, 0xFD, 0xCB, 0x02, 0x86, 0xC3, 0x00, 0x01}}}, 5, 0, nil},
+		{"LD (nn),HL / LD HL,(nn) / EX (SP),HL / ADD HL,BC", []Poke{{0x0100, []uint8{0x22, 0x00, 0x50, 0x2A, 0x02, 0x50, 0xE3, 0x09, 0xC3, 0x00, 0x01}}}, 5, 0, nil},
+	}
+	const iters = int64(1)<<31 + 1<<16
+	var total [16 * 8]int64
+	parallel(int64(len(loops)), 1, 16, func(wi int, lo, hi int64) {
+		for li := lo; li < hi; li++ {
+			l := &loops[li]
+			flat := &fastMem{}
+			for _, pk := range l.code {
+				copy(flat.b[pk.Addr:], pk.Data)
+			}
+			cpu := z80.CPU{Memory: flat, IO: make(z80.DumbIO, 256)}
+			cpu.PC, cpu.SP, cpu.IM = 0x0100, 0x8000, 1
+			cpu.HL.SetU16(0x6000)
+			cpu.DE.SetU16(0x6100)
+			cpu.IX, cpu.IY = 0x6200, 0x6300
+			if l.raise == 3 {
+				cpu.IM = 0
+			}
+			im1, nmi, im0 := z80.IM1Interrupt(), z80.NMIInterrupt(), z80.IM0Interrupt(0xFF)
+			var pan interface{}
+			var done, nsteps int64
+			lost := false
+			func() {
+				defer func() { pan = recover() }()
+				for it := int64(0); it < iters; it++ {
+					// pointers and counters are re-seeded so that the loop never wanders over its own code
+					cpu.HL.SetU16(0x6000)
+					cpu.DE.SetU16(0x6100)
+					cpu.BC.SetU16(0x0310)
+					switch l.raise {
+					case 1:
+						cpu.Interrupt, cpu.IFF1 = im1, false // the request waits for the EI of the loop
+					case 2:
+						cpu.Interrupt = nmi
+					case 3:
+						cpu.Interrupt, cpu.IFF1 = im0, false
+					}
+					k := 0
+					if l.raise == 4 {
+						cpu.Step() // HALT
+						k++
+						nsteps++
+						cpu.Interrupt = nmi
+					}
+					for {
+						cpu.Step()
+						k++
+						nsteps++
+						if cpu.PC == 0x0100 && cpu.Interrupt == nil {
+							break
+						}
+						if k >= 32 {
+							lost = true
+							return
+						}
+					}
+					done++
+					if it&0xFFFFF == 0 && c.TimeUp() {
+						return
+					}
+				}
+			}()
+			total[wi*8] += nsteps
+			switch {
+			case pan != nil:
+				c.Report("c12/soak:"+l.name, li, "", map[string]interface{}{"loop": l.name, "iterations_done": done}, []string{fmt.Sprintf("one CPU value running the loop %q: Step panicked in iteration %d (of 2^31+2^16): %v", l.name, done, pan)})
+			case lost:
+				c.Report("c12/soak:"+l.name, li, "", map[string]interface{}{"loop": l.name, "iterations_done": done}, []string{fmt.Sprintf("iteration %d of the loop %q did not come back to 0100 within 32 Steps (PC=%04X SP=%04X)", done, l.name, cpu.PC, cpu.SP)})
+			case done < iters:
+				c.Capped(fmt.Sprintf("time cap reached in the soak loop %q after %d iterations", l.name, done))
+			case cpu.SP != 0x8000 || cpu.PC != 0x0100:
+				c.Report("c12/soak:"+l.name, li, "", map[string]interface{}{"loop": l.name, "iterations_done": done}, []string{fmt.Sprintf("after %d iterations of the loop %q: PC=%04X (want 0100), SP=%04X (want 8000): the loop lost its footing", done, l.name, cpu.PC, cpu.SP)})
+			}
+		}
+	}, nil)
+	var n int64
+	for i := range total {
+		n += total[i]
+	}
+	c.Set("soak_steps", n)
+	c.Set("soak_loops", len(loops))
+	return n
+}
